@@ -222,12 +222,21 @@ func ruleChainWrapped(c *Ctx, rule string) {
 	p := L.Pkgs[genPkg]
 	sites := collectTemplates(p)
 	okGo, okNil := false, false
-	var fd *ast.FuncDecl
+	// the chain statement and the helpers only it uses
+	var fam []*ssa.Function
+	famDecl := map[*ast.FuncDecl]bool{}
+	if root := resolveRole(c, genPkg, "(*InjectorChainStmt).Stmt"); root != nil {
+		fam = family(L, root)
+		for _, f := range fam {
+			if d, ok := f.Syntax().(*ast.FuncDecl); ok {
+				famDecl[d] = true
+			}
+		}
+	}
 	for _, s := range sites {
-		if s.fnName() != "InjectorChainStmt.Stmt" {
+		if !famDecl[s.fn] {
 			continue
 		}
-		fd = s.fn
 		if s.kind == "FuncLit" && s.parent != nil && s.parent.kind == "CallExpr" && s.slot == "Args" {
 			if fun := s.parent.fields["Fun"]; fun != nil {
 				for _, s2 := range sites {
@@ -253,7 +262,10 @@ func ruleChainWrapped(c *Ctx, rule string) {
 	c.check(okNil, rule, "InjectorChainStmt.Stmt:ends-return-nil", "-", "the goroutine body ends with `return nil`", "template ReturnStmt{nil} appended to the chain's statements")
 	// nested statements get the goroutine-level handler (a constant function), never nil
 	okHandler := false
-	if fd != nil {
+	for fd := range famDecl {
+		if fd.Body == nil {
+			continue
+		}
 		ast.Inspect(fd.Body, func(n ast.Node) bool {
 			call, ok := n.(*ast.CallExpr)
 			if !ok || len(call.Args) != 3 {
@@ -273,15 +285,34 @@ func ruleChainWrapped(c *Ctx, rule string) {
 	if fn := genFn(c, rule, "(*InjectorChainStmt).Stmt"); fn != nil {
 		// `return nil` is appended after the loop over the chain's statements
 		var loopAppend, nilAppend *ssa.Call
-		for _, a := range appendsIn(L, fn) {
-			if strings.Contains(a.label, "invoke:Stmt") {
-				loopAppend = a.call
+		for _, g := range fam {
+			var la, na *ssa.Call
+			for _, a := range appendsIn(L, g) {
+				if strings.Contains(a.label, "invoke:Stmt") {
+					la = a.call
+				}
+				if strings.Contains(a.label, "lit:ReturnStmt") {
+					na = a.call
+				}
 			}
-			if strings.Contains(a.label, "lit:ReturnStmt") {
-				nilAppend = a.call
+			if la != nil && na != nil {
+				loopAppend, nilAppend = la, na
 			}
 		}
 		c.check(loopAppend != nil && nilAppend != nil && strictlyBefore(loopAppend, nilAppend), rule, "InjectorChainStmt.Stmt:return-last", L.pos(fn.Pos()), "`return nil` is the last statement of the goroutine body", "append order")
+		// the list that ends with `return nil` is the body of the function literal
+		if nilAppend != nil {
+			okBody, nBody := false, 0
+			for _, g := range fam {
+				for _, st := range storesToField([]*ssa.Function{g}, "go/ast.BlockStmt.List") {
+					nBody++
+					if listOrigin(fam, st.Val, 0) == ssa.Value(nilAppend) {
+						okBody = true
+					}
+				}
+			}
+			c.check(okBody, rule, "InjectorChainStmt.Stmt:body-is-the-chain-list", L.pos(fn.Pos()), "the body of the goroutine is the list of the chain's statements ending with `return nil`", fmt.Sprintf("%d BlockStmt.List stores in the chain statement and its helpers", nBody))
+		}
 	}
 }
 
@@ -1035,4 +1066,54 @@ func withContextBuilder(L *Loaded) (*ssa.Function, int) {
 		}
 	}
 	return nil, 0
+}
+
+// listOrigin follows a value back through the helpers of a family: a parameter to the argument of its only call site,
+// the i-th result of a helper call to what the helper returns on its only return.
+func listOrigin(fam []*ssa.Function, v ssa.Value, d int) ssa.Value {
+	if d > 6 || v == nil {
+		return v
+	}
+	v = resolve(v)
+	switch x := v.(type) {
+	case *ssa.Parameter:
+		pf := x.Parent()
+		idx := -1
+		for i, pp := range pf.Params {
+			if pp == x {
+				idx = i
+			}
+		}
+		var arg ssa.Value
+		n := 0
+		for _, g := range fam {
+			for _, cs := range callsIn(g) {
+				if cal := cs.common.StaticCallee(); cal != nil && originOf(cal) == pf && idx >= 0 {
+					args := cs.common.Args
+					if idx < len(args) {
+						n++
+						arg = args[idx]
+					}
+				}
+			}
+		}
+		if n == 1 {
+			return listOrigin(fam, arg, d+1)
+		}
+	case *ssa.Extract:
+		if call, ok := x.Tuple.(*ssa.Call); ok {
+			if cal := call.Common().StaticCallee(); cal != nil {
+				if rs := returnsOf(cal); len(rs) == 1 && x.Index < len(rs[0].Results) {
+					return listOrigin(fam, rs[0].Results[x.Index], d+1)
+				}
+			}
+		}
+	case *ssa.Call:
+		if cal := x.Common().StaticCallee(); cal != nil && cal.Signature.Results().Len() == 1 {
+			if rs := returnsOf(cal); len(rs) == 1 && len(rs[0].Results) == 1 {
+				return listOrigin(fam, rs[0].Results[0], d+1)
+			}
+		}
+	}
+	return v
 }
